@@ -38,6 +38,8 @@ class CaseTimeout(BaseException):
 
 
 def _alarm(signum, frame):
+    if history.HIST.soft:
+        raise history.PrimerTimeout()
     raise CaseTimeout()
 
 
@@ -210,15 +212,19 @@ def _wrap(name, fn):
             if hist is not None:
                 hn = hist.n.get(name, 0)
                 ab = hist.precall(name, fn)
-                hist.n[name] = hn + 1
+                spelled = hist.respell(name, bound)
+                n_arr = sum(1 for v in bound.arguments.values() if isinstance(v, np.ndarray))
                 used = hist.substitute(name, bound)
+                primed = hist.prime(name, fn, bound, used, hist.originals, n_arr)
+                sib = hist.cross(name, bound)
+                if sib or primed:
+                    for (key, buf), v in zip(used, hist.originals):   # whatever the unjudged calls did to the buffers
+                        np.copyto(buf, v)
+                hist.n[name] = hn + 1
                 args, kwargs = bound.args, bound.kwargs
-                if bound.arguments.get('copy', True) is False:
-                    hist.last.pop(name, None)
-                else:
-                    hist.last[name] = (args, kwargs)
+                hist.remember(name, fn, bound)
                 REC.history = {'function': name, 'call_no': hn, 'aborted_precall_at_line_event': ab,
-                               'argument_buffers_reused': len(used), 'result_mode': 'poison' if hn % 2 else 'stable'}
+                               'argument_buffers_reused': len(used), 'primed_with_renumbered_input': primed, 'sibling_run_first': sib, 'flags_respelled': spelled, 'result_mode': 'poison' if history._pick(name, hn, 'r') % 2 else 'stable'}
             arrs = []
             if bound is not None:
                 for k, v in bound.arguments.items():
@@ -303,7 +309,7 @@ def _history_after(hist, name, hn, used, arrs, result):
             if r is a or np.may_share_memory(r, a):
                 return result          # copy=False style aliasing: the array is the caller's own
     out = hist.deep_copy(result)
-    if hn % 2:
+    if history._pick(name, hn, 'r') % 2:
         for r in res_arrays:
             if hist.scribble(r):
                 hist.stats['poisoned_results'] += 1
